@@ -155,6 +155,7 @@ class Engine(CoreMixin, ExprMixin, CallMixin, LibMixin, StmtMixin, ReMixin):
         con = self.contract
         st = self.entry()
         self.entry_state = st.copy()
+        self.after_sites_seen = set()
         self.params_env = {k: v for k, v in st.env.items() if k not in C.GHOSTS}
         self.pre_pc = list(st.pc)
         # make the join spec function available before execution when a clause mentions it
@@ -181,6 +182,12 @@ class Engine(CoreMixin, ExprMixin, CallMixin, LibMixin, StmtMixin, ReMixin):
                 self.check_raise(o)
             else:
                 raise Unsupported("break/continue at function level")
+        # vacuity guard: a clause tied to a program point must have met that point
+        for key in con.ensures_local:
+            if "@" in key:
+                name = key.split("@")[0]
+                if not any(("#post.%s@" % name) in ob.oid or ob.oid.endswith("#after.%s" % name) for ob in self.obligations):
+                    raise Unsupported("program point of ensures_local %r not found in the source (no obligation generated)" % key)
         return self.obligations
 
     def lemma_obligations(self):
@@ -232,6 +239,8 @@ class Engine(CoreMixin, ExprMixin, CallMixin, LibMixin, StmtMixin, ReMixin):
         for name, expr in con.ensures_local.items():
             # postconditions that may mention the function's locals (evaluated in the state at the return)
             site = ("ret%d" % o.site) if o.site is not None else "end"
+            if "@after:" in name:
+                continue        # intermediate assertion, see check_after_assign
             if "@" in name:
                 name, only = name.split("@")
                 if only != site:
